@@ -11,6 +11,8 @@ Recognised (anything else becomes `.unknown`, which no reference term contains, 
 * `_iter_text`: statements in order: `encoding = self.content_type.parameters.get("charset", <default>)`; `decoder =
   codecs.getincrementaldecoder(encoding)()` (a NEW decoder object made in this call); `for b in self.iter_bytes(): yield decoder.decode(b)`;
   `final = decoder.decode(b"", True)` (also `_b("")`, `final=True`); `if final: yield final`.
+* `as_text`: `if self.content_type.type != "text": raise ValueError(...)`; the same charset lookup; `return _join_b(self.iter_bytes()).decode(encoding)` -
+  the bytes joined first and decoded ONCE (an `as_text` that joins the pieces of `iter_text` is `.unknown`).
 * `content_from_reader`: `if content_type is None: content_type = UTF8_TEXT`; `if buffer_now: contents = list(reader())` + a local
   `def reader(): return contents` (also a lambda); `return Content(content_type, reader)`.
 * `_iter_chunks`: `if seek_offset is not None: stream.seek(seek_offset, seek_whence)`; `chunk = stream.read(chunk_size)`; `while chunk:`
@@ -67,6 +69,31 @@ def iter_text(fn):
         if fin and isinstance(s, ast.If) and not s.orelse and u(s.test) in (fin, 'len(%s) > 0' % fin, 'len(%s) != 0' % fin, "%s != ''" % fin) \
                 and [u(y) for y in nocomment(s.body)] == ['yield ' + fin]:
             steps.append('.yieldFinalIfNonEmpty')
+            continue
+        steps.append('.unknown')
+    return '[%s]' % ', '.join(steps)
+
+
+# ---------------------------------------------------------------- Content.as_text
+def as_text(fn):
+    """`if self.content_type.type != "text": raise ValueError(...)`; `encoding = self.content_type.parameters.get("charset", <default>)`;
+    `return _join_b(self.iter_bytes()).decode(encoding)` (also `b"".join(...)`): the bytes are joined first and decoded ONCE"""
+    steps = []
+    enc = None
+    for s in body_of(fn):
+        if isinstance(s, ast.If) and not s.orelse and u(s.test) in ("self.content_type.type != 'text'", "not self.content_type.type == 'text'") \
+                and len(nocomment(s.body)) == 1 and isinstance(s.body[-1], ast.Raise) and u(s.body[-1].exc).startswith('ValueError('):
+            steps.append('.raiseIfNotText')
+            continue
+        if isinstance(s, ast.Assign) and isinstance(s.targets[0], ast.Name) and enc is None and isinstance(s.value, ast.Call) \
+                and u(s.value.func) == 'self.content_type.parameters.get' and len(s.value.args) == 2 and u(s.value.args[0]) == "'charset'" \
+                and isinstance(s.value.args[1], ast.Constant) and isinstance(s.value.args[1].value, str):
+            enc = s.targets[0].id
+            d = s.value.args[1].value.lower().replace('_', '-')
+            steps.append('(.encodingFromCharset %s)' % ('.iso8859_1' if d in ('iso-8859-1', 'latin-1', 'latin1', 'iso8859-1', 'l1') else '.other'))
+            continue
+        if isinstance(s, ast.Return) and enc and u(s.value) in ('_join_b(self.iter_bytes()).decode(%s)' % enc, "b''.join(self.iter_bytes()).decode(%s)" % enc):
+            steps.append('.returnJoinedDecoded')
             continue
         steps.append('.unknown')
     return '[%s]' % ', '.join(steps)
@@ -328,6 +355,8 @@ open TTV.ContentSkel
 
 def iterText : List TextStep := %s
 
+def asText : List AsTextStep := %s
+
 def contentFromReader : List ReaderStep := %s
 
 def iterChunks : ChunksSrc :=
@@ -340,7 +369,7 @@ def charsetFix : FixSrc :=
     %s
 
 end TTV.Generated.ContentSrc
-''' % (iter_text(find(c, 'Content._iter_text')), content_from_reader(find(c, 'content_from_reader')), iter_chunks(find(c, '_iter_chunks')),
+''' % (iter_text(find(c, 'Content._iter_text')), as_text(find(c, 'Content.as_text')), content_from_reader(find(c, 'content_from_reader')), iter_chunks(find(c, '_iter_chunks')),
        repr_fn(find(ct, 'ContentType')), charset_fix(find(real, '_make_content_type')))
 
 
